@@ -28,6 +28,12 @@ const PREFIXES: &[&str] = &[
     "begin_copy_in_started",
     "begin_batch_no_sync",
     "begin_set_then_commit_later",
+    "begin_prepare_failed",
+    "begin_named_parse_failed",
+    "set_guc_then_begin",
+    "set_role_then_begin",
+    "sql_prepare_then_begin",
+    "set_guc_then_begin_failed",
 ];
 
 const STOPS: &[&str] = &[
@@ -81,7 +87,7 @@ impl Case {
 }
 
 fn in_txn_prefix(p: &str) -> bool {
-    p.starts_with("begin")
+    p.starts_with("begin") || p.contains("_then_begin")
 }
 
 /// dirty components of a state snapshot (C02's list), ignoring tracked parameters (C12's domain)
@@ -186,6 +192,33 @@ fn run_case(case: &Case, rep: &Report) -> Result<(), String> {
             b.extend(proto::bind("", "", &[], &[], &[]));
             b.extend(proto::execute("", 0));
             a.send(&b).map_err(|e| e.to_string())?;
+        }
+        "begin_prepare_failed" => {
+            // PREPARE is not transactional: it survives the ROLLBACK and must be deallocated
+            ok(a.query(&format!("BEGIN {}", t("")), 5000), "begin")?;
+            ok(a.query(&format!("PREPARE p1 AS SELECT 1 {}", t("")), 5000), "prepare")?;
+            ok(a.query(&format!("SELECT 1 {}", t("err=pre")), 5000), "failing stmt")?;
+        }
+        "begin_named_parse_failed" => {
+            ok(a.query(&format!("BEGIN {}", t("")), 5000), "begin")?;
+            let mut b = proto::parse("s1", &format!("SELECT 1 {}", t("")), &[]);
+            b.extend(proto::sync());
+            a.send(&b).map_err(|e| e.to_string())?;
+            ok(a.read_until_ready(5000), "named parse")?;
+            ok(a.query(&format!("SELECT 1 {}", t("err=pre")), 5000), "failing stmt")?;
+        }
+        "set_guc_then_begin" | "set_role_then_begin" | "sql_prepare_then_begin" | "set_guc_then_begin_failed" => {
+            // session-level state created OUTSIDE a transaction, then a transaction left open
+            let first = match case.prefix.as_str() {
+                "set_role_then_begin" => "SET ROLE other_role",
+                "sql_prepare_then_begin" => "PREPARE p1 AS SELECT 1",
+                _ => "SET work_mem TO '64MB'",
+            };
+            ok(a.query(&format!("{} {}", first, t("")), 5000), "session state")?;
+            ok(a.query(&format!("BEGIN {}", t("")), 5000), "begin")?;
+            if case.prefix.ends_with("_failed") {
+                ok(a.query(&format!("SELECT 1 {}", t("err=pre")), 5000), "failing stmt")?;
+            }
         }
         "begin_set_then_commit_later" => {
             // SET inside a block is don't-care for GUC cleanliness; used for txn state only
